@@ -10,7 +10,7 @@ ID = "C09"
 LEVEL = "exploration"
 RULE = ("Hypothesis-generated LIST replies (0..300 DENT records, names of 1..255 arbitrary bytes, mode/size/mtime from 32-bit boundary values U ints) and "
         "STAT triples; WRTE boundaries anywhere over the reply stream (one per record, fixed tiny sizes 1..21 that cut every 20-byte DENT header and every name, "
-        "random); read fragmentation tape; both APIs. Oracle: result == the simulator's table, in order; stream closed by the host afterwards. "
+        "random); read fragmentation tape; optionally a slow link (every read takes up to 0.1 s, transport_timeout_s < read_timeout_s, whole reply within 4 s); both APIs. Oracle: result == the simulator's table, in order; stream closed by the host afterwards. "
         "Non-trivial: >= 2 entries with a record straddling packets, or a field >= 2^31. Distinct = case hash.")
 ASSUMPTIONS = ["device simulator sync service per AOSP SYNC.TXT", "in-memory transport, virtual clock"]
 
@@ -44,9 +44,17 @@ def cases(draw):
     if cuts and total // min(cuts) > 1500:
         cuts = [max(c, total // 1500 + 1) for c in cuts]
     dev["cuts"] = cuts
+    tr = {"flavour": draw(sc.flavour()), "frag": sc.tame_frag(draw(sc.frag_tape()), total + 500, budget=20000)}
+    if draw(st.sampled_from([False, False, True])):
+        # a slow link: every read takes `frag_delay`; the caller's transport timeout is shorter than its read timeout.  Each read is in time and the
+        # whole reply needs at most ~4 s, well inside read_timeout_s = 10 s
+        tt = draw(st.sampled_from([0.2, 0.5, 1.0]))
+        op["transport_timeout_s"] = tt
+        m = sc.min_frag(tr["frag"]) or 4096
+        nreads = (total + 500) // max(1, min(m, 4096)) + 60
+        tr["frag_delay"] = min(draw(st.sampled_from([0.01, 0.03, 0.1])), tt, 4.0 / nreads)
     return {"api": draw(st.sampled_from(["sync", "async"])), "device": dev, "dev_tape": draw(sc.dev_tape(8)),
-            "transport": {"flavour": draw(sc.flavour()), "frag": sc.tame_frag(draw(sc.frag_tape()), total + 500, budget=20000)},
-            "connect": {}, "ops": [op]}
+            "transport": tr, "connect": {}, "ops": [op]}
 
 
 def check_case(case):
@@ -90,6 +98,8 @@ def check_case(case):
         info["classes"].append("field>=2^31")
     if out.core.frag_reads:
         info["classes"].append("fragmented-reads")
+    if case["transport"].get("frag_delay"):
+        info["classes"].append("slow-link")
     reqs = [r for r in out.sim.sync_requests if r[0] == s.rid]
     if reqs != [(s.rid, op["op"].upper(), path)]:
         return Violation("wrong-request", repr(reqs)), info
